@@ -122,8 +122,8 @@ fn run_doc(o: &mut Outcome, case: &Value) {
     if o.sample.is_null() { o.sample = json!({"text": text, "paths": dpaths, "expected_files_paragraph": case["ff"], "expected_licence": case["lf"]}); }
 }
 
-/// licence names: ids 1, 2 are different names, id 3 differs from id 1 by case only (names are compared exactly)
-fn lname(id: &Value) -> String { ["L1", "L2", "l1"][id.as_u64().unwrap_or(1) as usize - 1].to_string() }
+/// licence names: id 2 extends id 1 by further words (the name is the whole first line), id 3 differs from id 1 by case only
+fn lname(id: &Value) -> String { ["L1", "L1 with exception", "l1"][id.as_u64().unwrap_or(1) as usize - 1].to_string() }
 
 pub fn run(case: &Value, _seed: u64) -> Outcome {
     let mut o = Outcome::default();
